@@ -76,6 +76,13 @@ def main(argv=None):
     ctx = Ctx(a.pid, a.tier, a.seed)
     if hasattr(prop, "setup"):
         prop.setup(ctx)
+    # a lived-in process: something else has used the library before the cases do (vf/prelude.py)
+    if os.environ.get("VF_NO_PRELUDE") != "1":
+        from . import prelude
+        ctx.count("prelude-steps-completed", prelude.run())
+        mon.CONTRACTS.take()
+        mon.CONTRACTS.take_errors()
+        mon.TRACER.clear()
 
     if a.cases_file:
         with open(a.cases_file) as fh:
